@@ -58,7 +58,14 @@ impl Handler for Server {
     }
 
     fn on_message(&mut self, msg: Message) -> ws::Result<()> {
-        let message = msg.as_text().unwrap();
+        let message = match msg.as_text() {
+            Ok(text) => text,
+            Err(e) => {
+                // A binary frame that is not valid UTF-8 is not a command: ignore it
+                log::warn!("ws_ops::on_message ignoring non text message: {}", e);
+                return Ok(());
+            }
+        };
         log::debug!(
             "[{}] Server got message '{}'. ",
             thread_id::get(),
